@@ -1,5 +1,5 @@
 import Liquid.Std
-import Proofs.MapPermFilters
+import Proofs.MapPermJson
 /-!
 # C02 — rendering is deterministic across runs, re-parses, engines and entry points
 
@@ -182,11 +182,12 @@ example : OutRespectM true stdOut := stdOut_respectsM
 
 The standard output layer (`stdOut_respectsM`: `fmt.Sprint` sorts the keys of a map), the standard
 comparisons (`opEq_prep_mp`, `opLt_prep_mp`, `opContains_prep_mp`, `equal_mp`: `equalMaps` is a conjunction
-over all entries, `mapValue.Contains` a key lookup) and every standard filter except the six of
-`openFiltersM` (`filterRespectsM_std`: `Convert(·, []any)` of a map sorts the entries, `Convert(·, string)`
-prints them sorted) respect `MP` up to `unmodelled`: the entries of a map are *printed* and *compared* in
-the order of the entry list, so which part of a value leaves the model first — and with an early exit,
-whether it is reached at all — depends on that order; the answers inside the model are the same. -/
+over all entries, `mapValue.Contains` a key lookup) and every standard filter except `sort`, `sort_natural`
+and `uniq` (`filterRespectsM_std2`: `Convert(·, []any)` of a map sorts the entries, `Convert(·, string)`
+prints them sorted, `json`/`inspect` sort the members of an object by key text — `marshal_jrel` — and `type`
+names types) respect `MP` up to `unmodelled`: the entries of a map are *printed* and *compared* in the order of
+the entry list, so which part of a value leaves the model first — and with an early exit, whether it is
+reached at all — depends on that order; the answers inside the model are the same. -/
 
 /-- **C02 for the standard configuration** (partial). `allowed` says which filters are registered on the
 engine (`stdPrimsOnly allowed`; with `fun _ => true` it is `stdPrims`). Rendering any template against
@@ -194,32 +195,31 @@ environments whose bindings differ in the order of map entries at any depth (`MP
 agree (`RunAgree true`: the same output or the same error, or one of the two runs is outside the model).
 
 Full statement wanted: the same for `stdPrims` (every filter registered). What is missing:
-* `hopen` — for `sort`, `sort_natural`, `uniq`, `json`, `inspect`, `type`, when registered, `FilterRespectsM` has to be
-  supplied: their bodies are not shown to respect `MP` here. (`json`/`inspect` sort the members of an object by key
-  text: `json_map_order_independent`, `Proofs/JsonFilter.lean`, is the statement for one map; the induction through
-  nested values, `zeroJson` slots and the `%#v` fallback is not done. `sort`/`sort_natural` order by `values.Less` /
-  the printed text, which `lessTL_mp` / `sprint_mp` show independent of the entry order, but the insertion sort over a
-  partial comparator and the tie check are not transported. `uniq` identifies elements by `MapOrder.canonEnc`, the
-  encoding with every map in canonical order; that this is the same for related elements is not proved.)
+* `hopen` — for `sort`, `sort_natural` and `uniq`, when registered, `FilterRespectsM` has to be supplied: their
+  bodies are not shown to respect `MP` here. (`sort`/`sort_natural` order by `values.Less` / the printed text, which
+  `lessTL_mp` / `sprint_mp` show independent of the entry order, but the insertion sort over a partial comparator,
+  the homogeneity test and the tie check are not transported. `uniq` identifies elements by `MapOrder.canonEnc`,
+  the encoding with every map in canonical order; that this is the same for related elements is not proved.)
 * "agree" instead of "equal": see the paragraph above. -/
 theorem run_std_map_order_independent_partial (allowed : Bytes → Bool)
-    (hopen : ∀ n, n ∈ openFiltersM → allowed n = true → FilterRespectsM n)
+    (hopen : ∀ n, n ∈ sortFiltersM → allowed n = true → FilterRespectsM n)
     (cfg : Cfg) (fs : FS) (fuel : Nat) (src : Bytes) (line : Nat) (env env' : Env)
     (he : ∀ x, MP (env.get x) (env'.get x)) :
     RunAgree true (run (stdPrimsOnly allowed) stdOut cfg fs fuel src line env)
       (run (stdPrimsOnly allowed) stdOut cfg fs fuel src line env') :=
-  run_mp _ _ cfg fs fuel (stdPrimsOnly_respectsM allowed hopen) stdOut_respectsM src line he
+  run_mp _ _ cfg fs fuel (stdPrimsOnly_respectsM2 allowed hopen) stdOut_respectsM src line he
 
-/-- **C02 for the standard engine without `sort`, `sort_natural`, `uniq`, `json`, `inspect`, `type`**: no hypothesis
-left. Every template (all tags, every other filter, every comparison), every file system and include depth:
-environments that differ in the order of the entries of maps, at any depth, render to agreeing results. -/
-theorem run_std_map_order_independent_core (cfg : Cfg) (fs : FS) (fuel : Nat) (src : Bytes) (line : Nat) (env env' : Env)
+/-- **C02 for the standard engine without `sort`, `sort_natural`, `uniq`**: no hypothesis left. Every template
+(all tags, the other 45 filters — `json`, `inspect` and `type` among them —, every comparison), every file system
+and include depth: environments that differ in the order of the entries of maps, at any depth, render to
+agreeing results. -/
+theorem run_std_map_order_independent_without_sorts (cfg : Cfg) (fs : FS) (fuel : Nat) (src : Bytes) (line : Nat) (env env' : Env)
     (he : ∀ x, MP (env.get x) (env'.get x)) :
-    RunAgree true (run (stdPrimsOnly coreFiltersM) stdOut cfg fs fuel src line env)
-      (run (stdPrimsOnly coreFiltersM) stdOut cfg fs fuel src line env') :=
-  run_std_map_order_independent_partial coreFiltersM
+    RunAgree true (run (stdPrimsOnly withoutSortsM) stdOut cfg fs fuel src line env)
+      (run (stdPrimsOnly withoutSortsM) stdOut cfg fs fuel src line env') :=
+  run_std_map_order_independent_partial withoutSortsM
     (fun n hn ha => by
-      simp [coreFiltersM] at ha
+      simp [withoutSortsM] at ha
       exact absurd hn ha)
     cfg fs fuel src line env env' he
 
@@ -238,5 +238,6 @@ example : ∀ y, MP (Env.get [([97], .slice .any [.map .any .any MapOrder.exA, .
   · have : ([97] == y) = false := by simp [Ne.symm h]
     simp [Env.get, List.find?, this, MP.refl]
 
-/-- a filter outside `openFiltersM` satisfies its hypothesis: `join` -/
-example : FilterRespectsM (ArrF.bn "join") := filterRespectsM_std _ (by decide +kernel)
+/-- filters outside `sortFiltersM` satisfy their hypothesis: `join`, `json` -/
+example : FilterRespectsM (ArrF.bn "join") := filterRespectsM_std2 _ (by decide +kernel)
+example : FilterRespectsM (JsonF.bn "json") := filterRespectsM_std2 _ (by decide +kernel)
